@@ -328,7 +328,12 @@ func (p *Path) Field(sel string) (PathNode, bool, error) {
 
 func (p *Path) Get(src, dst reflect.Value) error {
 	if p.node == nil {
-		return nil
+		// "$": the whole value
+		if !src.IsValid() {
+			// a nil interface (JSON null): dst keeps its zero value
+			return nil
+		}
+		return AssignValue(src, dst)
 	}
 	return p.node.Get(src, dst)
 }
